@@ -73,6 +73,26 @@ def through_attr(o: Origin) -> List[Tuple[Origin, str]]:
     return []
 
 
+def _negate_text(t: str) -> str:
+    """Source text of the negation of a test, with the common double negations removed."""
+    import re as _re
+
+    t = t.strip()
+    m = _re.fullmatch(r"not \((.*)\)", t)
+    if m and m.group(1).count("(") == m.group(1).count(")"):
+        return m.group(1)
+    m = _re.fullmatch(r"not ([\w.]+)", t)
+    if m:
+        return m.group(1)
+    m = _re.fullmatch(r"([\w.]+) is None", t)
+    if m:
+        return f"{m.group(1)} is not None"
+    m = _re.fullmatch(r"([\w.]+) is not None", t)
+    if m:
+        return f"{m.group(1)} is None"
+    return f"not ({t})"
+
+
 class MethodWalker:
     def __init__(self, py: PyFacts, cls: str, meth: str):
         self.py = py
@@ -200,6 +220,11 @@ class MethodWalker:
     def _walk_body(self, body, env, ci, fn, cond, depth):
         for st in body:
             self._walk_stmt(st, env, ci, fn, cond, depth)
+            # a guard clause (`if T: ...; return`) makes what follows conditional on `not T`
+            if isinstance(st, ast.If) and not st.orelse and st.body and isinstance(st.body[-1], (ast.Return, ast.Raise)) and getattr(st, "_elif_of", None) is None:
+                neg = _negate_text(unparse(st.test))
+                cond = neg if cond is None else f"{cond} and {neg}"
+
 
     def _walk_stmt(self, st, env, ci, fn, cond, depth):
         if isinstance(st, ast.Assign):
@@ -217,7 +242,15 @@ class MethodWalker:
                     self._defs[st.target.id] = st.value
         elif isinstance(st, ast.For):
             self._scan_expr(st.iter, env, ci, fn, cond, depth)
-            self._bind_iter(st.target, self.origin(st.iter, env), env)
+            it_o = self.origin(st.iter, env)
+            # a loop over a display of items (`for c in (self._a, self._b)`) runs once per item, in that order
+            if isinstance(it_o, tuple) and it_o and it_o[0] == "union" and len(it_o[1]) > 1 and all(isinstance(p_, tuple) and p_ and p_[0] == "listof" for p_ in it_o[1]) and isinstance(st.target, ast.Name):
+                for p_ in it_o[1]:
+                    env[st.target.id] = p_[1]
+                    self._walk_body(st.body, env, ci, fn, cond, depth)
+                self._walk_body(st.orelse, env, ci, fn, cond, depth)
+                return
+            self._bind_iter(st.target, it_o, env)
             self._walk_body(st.body, env, ci, fn, cond, depth)
             self._walk_body(st.orelse, env, ci, fn, cond, depth)
         elif isinstance(st, ast.While):
@@ -299,6 +332,31 @@ class MethodWalker:
                             self._defs = saved
                             break
                 return
+            # helper(args) - a module-level function of the elements module: its prints / visits happen here, parameters bound to the arguments
+            if isinstance(f, ast.Name) and depth < 5 and not any(isinstance(a, ast.Starred) for a in e.args):
+                mod_ = self.py.modules.get(ci.module) if hasattr(ci, "module") else None
+                callee = mod_.functions.get(f.id) if mod_ is not None and hasattr(mod_, "functions") else None
+                if callee is not None and callee is not fn and not callee.decorator_list:
+                    for a in e.args:
+                        self._scan_expr(a, env, ci, fn, cond, depth)
+                    for k in e.keywords:
+                        self._scan_expr(k.value, env, ci, fn, cond, depth)
+                    plist = [a.arg for a in callee.args.args]
+                    env2: Dict[str, Origin] = {}
+                    for pn, a in zip(plist, e.args):
+                        env2[pn] = self.origin(a, env)
+                    for k in e.keywords:
+                        if k.arg in plist:
+                            env2[k.arg] = self.origin(k.value, env)
+                    saved = self._defs
+                    n_before = len(self.events)
+                    self._walk_method(ci, callee, depth + 1, env2)
+                    self._defs = saved
+                    if cond is not None:
+                        for ev in self.events[n_before:]:
+                            if ev.cond is None:
+                                ev.cond = cond
+                    return
             # self._helper(args): the helper's own prints / visits happen here, with its parameters bound to the arguments
             if isinstance(f, ast.Attribute) and isinstance(f.value, ast.Name) and f.value.id == "self" and f.attr not in ("basic09_text", "visit") and depth < 5:
                 rm = self.py.resolve_method(self.cls, f.attr)
